@@ -176,7 +176,8 @@ def run_apply(idx, rng, sh):
     etype = rng.choice([1, 1, 1, 3, 2])
     img, info = build_rel_image(rng, mach, cls, le, rela, relocs, syms, secdata, etype=etype, extra=extra)
     want = model_apply(secdata, relocs, syms, le, rela, table) if etype == 1 else secdata
-    di = ELFFile(io.BytesIO(img)).get_dwarf_info(relocate_dwarf_sections=True)
+    ef = ELFFile(io.BytesIO(img))
+    di = ef.get_dwarf_info(relocate_dwarf_sections=True)
     if etype != 1:
         if comp and (di.debug_str_sec.stream.getvalue(), di.debug_str_offsets_sec.stream.getvalue()) != (sdata, odata):
             raise Bad('companion sections of a linked file were changed by its kept relocation sections')
@@ -209,6 +210,18 @@ def run_apply(idx, rng, sh):
     raw = ELFFile(io.BytesIO(img)).get_dwarf_info(relocate_dwarf_sections=False).debug_info_sec.stream.getvalue()
     if raw != secdata:
         raise Bad('relocate_dwarf_sections=False changed the bytes')
+    # the same file object asked again, in each order of the flag: every answer is computed from the bytes of the file, and
+    # an answer handed out earlier does not change under the caller's feet
+    seq = [rng.random() < 0.6 for _ in range(rng.choice([1, 2, 3]))]
+    held = [(True, di)]
+    for flag in seq:
+        d2 = ef.get_dwarf_info(relocate_dwarf_sections=flag)
+        held.append((flag, d2))
+        for fl, dd in held:
+            if dd.debug_info_sec.stream.getvalue() != (want if fl else secdata):
+                raise Bad('a second get_dwarf_info() on the same file object: %s bytes differ (%s, %s in-place addends)' % (
+                    'relocated' if fl else 'unrelocated', name, 'RELA' if rela else 'REL'), cls=cls, le=le, flags=[True] + seq)
+    sh.count('repeated_get_dwarf_info_on_one_file_object', len(seq))
     if di.debug_info_sec.size != len(secdata):
         raise Bad('descriptor size')
     sh.held()
